@@ -459,6 +459,9 @@ func (s *Store) readRootsScan(defaultToEmpty bool) (err error) {
 		if err := s.scanBackwardsForMagicEnd(rootsEnd, defaultToEmpty); err != nil {
 			return err
 		}
+		if defaultToEmpty && atomic.LoadInt64(&s.size) == 0 {
+			return nil // No earlier root record: an empty store.
+		}
 		offset, length, err := s.readRootsEnd(rootsEnd)
 		if err != nil {
 			return err
